@@ -3,8 +3,8 @@ C03 (part 6): the canonical-JSON sign-bytes bind the BLOCK HASH.  A further well
 `C03_signBytes_binds_statement`: lower-case hex rendering is injective and self-delimiting before the closing quote
 (`hexLower_cancel`), so for ASCII chain ids and votes for a block (non-zero hash), equal sign-bytes force equal chain id AND
 equal block hash — whatever the parts header, height, round, time and type of the two messages are.  A signature on a vote
-for block X can therefore not be presented as a vote for another block hash.  (Injectivity of the parts-header and time
-renderings stays open; `signBytes_binds_step_fields` covers chain/height/round/type for a fixed block id and time.)
+for block X can therefore not be presented as a vote for another block hash.  `signBytes_nil_vs_block`: a vote for nil and a vote for a block never share sign-bytes.  (Injectivity of the parts-header and
+time renderings stays open; `signBytes_binds_step_fields` covers chain/height/round/type for a fixed block id and time.)
 -/
 import LinkVerif.Model.Vote
 import LinkVerif.Props.C03SignBytes
@@ -86,5 +86,30 @@ example : signBytes bhA ≠ signBytes bhB := by
   intro h
   have := (signBytes_binds_block_hash bhA bhB (by decide) (by decide) (by decide) (by decide) h).2
   revert this; decide
+
+/-- a block id with the zero hash (a vote for nil) never renders like one with a non-zero hash -/
+theorem blockIDJSON_zero_ne (b b' : BlockID) (hz : b.hash = zeroHash) (hb' : b'.hash ≠ zeroHash) (r r' : List Char) :
+    blockIDJSON b ++ r ≠ blockIDJSON b' ++ r' := by
+  obtain ⟨t', e'⟩ := blockIDJSON_flat b' hb'
+  rw [e']
+  intro h
+  by_cases hp : b.phash.isEmpty ∧ b.total = 0
+  · simp [blockIDJSON, partsJSON, obj, List.intercalate, hz, hp] at h
+  · have hp' : ¬ (b.phash = [] ∧ b.total = 0) := by simpa [List.isEmpty_iff] using hp
+    simp [blockIDJSON, partsJSON, obj, field, q, str, List.intercalate, hz, hp'] at h
+
+/-- PARTIAL of `C03_signBytes_binds_statement` (proved): a signature on a vote for nil is not a signature on a vote for a block,
+and vice versa, whatever the other fields are (ASCII chain ids) -/
+theorem signBytes_nil_vs_block (m m' : Msg) (hc : ∀ b ∈ m.chain, b.toNat < 128) (hc' : ∀ b ∈ m'.chain, b.toNat < 128)
+    (hz : m.bid.hash = zeroHash) (hb' : m'.bid.hash ≠ zeroHash) : signBytes m ≠ signBytes m' := by
+  intro h
+  rw [signBytes_flat, signBytes_flat] at h
+  have h1 := List.append_cancel_left h
+  obtain ⟨_, h2⟩ := jsonEsc_cancel m.chain m'.chain hc hc' _ _ h1
+  have h3 := List.append_cancel_left (List.cons.inj h2).2
+  exact blockIDJSON_zero_ne _ _ hz hb' _ _ h3
+
+example : signBytes { bhA with bid := BlockID.zero } ≠ signBytes bhA :=
+  signBytes_nil_vs_block _ _ (by decide) (by decide) rfl (by decide)
 
 end Props.C03
